@@ -33,7 +33,10 @@ def run(ctx):
                                 dict(module_rel="queue/OptQueueMC.tla", cfg_rel="queue/OptQueue_q.cfg", workers=2),
                                 dict(module_rel="queue/OptQueueMC.tla", cfg_rel="queue/OptQueue_q3.cfg", workers=4),
                                 dict(module_rel="queue/OptQueueMC.tla", cfg_rel="queue/OptQueue_bad_prevbeforecas.cfg", workers=2, expect_violation="LinOK"),
-                                dict(module_rel="queue/OptQueueMC.tla", cfg_rel="queue/OptQueue_bad_nofix.cfg", workers=2, expect_violation="LinOK")] +
+                                dict(module_rel="queue/OptQueueMC.tla", cfg_rel="queue/OptQueue_bad_nofix.cfg", workers=2, expect_violation="LinOK"),
+                                # FCElim.tla (elimination inside fc_process with re-used publication records); refuted: seeded change C06b
+                                dict(module_rel="fc/FCElimMC.tla", cfg_rel="fc/FCElim_queue.cfg", workers=1),
+                                dict(module_rel="fc/FCElimMC.tla", cfg_rel="fc/FCElim_bad_wrongflag.cfg", workers=1, expect_violation="Conservation")] +
                                ([] if ctx.quick() else [dict(module_rel="queue/MSQueueMC.tla", cfg_rel="queue/MSQueue_notailcheck.cfg", workers=8, timeout=3000),
                                                         dict(module_rel="queue/OptQueueMC.tla", cfg_rel="queue/OptQueue_q3b.cfg", workers=4, timeout=3000)]), par=4)
     progs = list(PROGRAMS) + [gen_program(ctx.rng) for _ in range(1 if ctx.quick() else 6)]
